@@ -19,6 +19,10 @@ def chain(cfg, q):
 
 
 def _strategy(cfg, q, ind):
+    if q in cfg.get("fixed", {}):
+        # a fixed-window quota that never refuses: it only sits in the hierarchy between / above / below concurrency quotas
+        return ["%sstrategy:" % ind, "%s  fixed_window:" % ind, "%s    max: 1000000" % ind,
+                "%s    interval: 1" % ind, "%s    interval_unit: hour" % ind]
     return ["%sstrategy:" % ind, "%s  concurrent:" % ind,
             "%s    max_request_count: %d" % (ind, cfg["Max"][q]),
             "%s    request_expiration_sec: %d" % (ind, cfg["Expiry"][q]),
@@ -26,17 +30,28 @@ def _strategy(cfg, q, ind):
 
 
 def files_of(cfg):
+    """cfg["parent"] is the hierarchy of the concurrency quotas as the specification sees it; cfg["real_parent"] (optional)
+    is the configured hierarchy including never-refusing fixed-window quotas (cfg["fixed"]) - mixed hierarchies."""
+    rp = cfg.get("real_parent", cfg["parent"])
+    allq = list(rp)
+
+    def depth(q):
+        d = 0
+        while rp[q] != "-":
+            q = rp[q]
+            d += 1
+        return d
     ql = ["quotas:"]
-    for q in [q for q in cfg["quotas"] if cfg["parent"][q] == "-"]:
+    for q in [q for q in allq if rp[q] == "-"]:
         ql += ["  - id: %s" % q, "    filter:", "      url: api.test/*"] + _strategy(cfg, q, "    ")
-    rest = sorted([q for q in cfg["quotas"] if cfg["parent"][q] != "-"], key=lambda q: len(chain(cfg, q)))
+    rest = sorted([q for q in allq if rp[q] != "-"], key=depth)
     if rest:
         ql.append("internal_limits:")
     for q in rest:
-        ql += ["  - id: %s" % q, "    parent_id: %s" % cfg["parent"][q]] + _strategy(cfg, q, "    ")
+        ql += ["  - id: %s" % q, "    parent_id: %s" % rp[q]] + _strategy(cfg, q, "    ")
     files = {"quotas/quotas.yaml": "\n".join(ql) + "\n"}
     for f, fl in cfg["flows"].items():
-        files["flows/%s.yaml" % f] = flow_yaml(f, fl["qs"])
+        files["flows/%s.yaml" % f] = flow_yaml(f, fl.get("lim", fl["qs"]))
     return files
 
 
@@ -77,6 +92,7 @@ def flow_yaml(name, qs):
 
 def script_of(cfg, histories, hooks=False):
     model = {k: cfg[k] for k in ("quotas", "parent", "Max", "Expiry", "GcPeriod", "txns")}
+    model["txns"] = list(model["txns"]) + ["s%d" % i for i in range(NSTORM)]
     flows = {f: {"url": "api.test/%s" % f, "qs": fl["qs"]} for f, fl in cfg["flows"].items()}
     return {"config": model, "files": files_of(cfg), "flows": flows, "ngc": len(cfg["quotas"]), "hooks": hooks,
             "histories": histories}
@@ -87,6 +103,13 @@ SHAPES = [
     {"quotas": ["cq"], "parent": {"cq": "-"}, "flows": {"f": {"qs": ["cq"]}}},
     {"quotas": ["cp", "cc"], "parent": {"cp": "-", "cc": "cp"}, "flows": {"f": {"qs": ["cc"]}, "g": {"qs": ["cp"]}}},
     {"quotas": ["qa", "qb"], "parent": {"qa": "-", "qb": "-"}, "flows": {"f": {"qs": ["qa", "qb"]}, "g": {"qs": ["qb"]}}},
+    # mixed hierarchies: the fixed-window members never refuse, the specification sees the concurrency quotas only
+    {"quotas": ["mp"], "parent": {"mp": "-"}, "fixed": ["fx"], "real_parent": {"mp": "-", "fx": "mp"},
+     "flows": {"f": {"qs": ["mp"], "lim": ["fx"]}, "g": {"qs": ["mp"], "lim": ["mp"]}}},
+    {"quotas": ["mc"], "parent": {"mc": "-"}, "fixed": ["fp"], "real_parent": {"fp": "-", "mc": "fp"},
+     "flows": {"f": {"qs": ["mc"], "lim": ["mc"]}}},
+    {"quotas": ["cr", "cl"], "parent": {"cr": "-", "cl": "cr"}, "fixed": ["fm"], "real_parent": {"cr": "-", "fm": "cr", "cl": "fm"},
+     "flows": {"f": {"qs": ["cl"], "lim": ["cl"]}, "g": {"qs": ["cr"], "lim": ["fm"]}}},
 ]
 NTXN = 14
 
@@ -95,6 +118,9 @@ def rand_config(rng, thorough, shape=None):
     sh = shape or rng.choice(SHAPES)
     cfg = {"quotas": list(sh["quotas"]), "parent": dict(sh["parent"]), "flows": json.loads(json.dumps(sh["flows"])),
            "Max": {}, "Expiry": {}, "GcPeriod": {}, "txns": ["t%d" % i for i in range(NTXN)]}
+    if "fixed" in sh:
+        cfg["fixed"] = {q: True for q in sh["fixed"]}
+        cfg["real_parent"] = dict(sh["real_parent"])
     for q in cfg["quotas"]:
         cfg["Max"][q] = rng.choice([1, 2, 3, 3, 4])
         cfg["Expiry"][q] = rng.choice([2, 3, 4])
@@ -108,88 +134,150 @@ def rand_config(rng, thorough, shape=None):
 
 
 def rand_history(rng, cfg, n, conc):
-    """transactions t0.. (each id used once as a request); live ones are ended by response / error, or abandoned."""
-    h = [{"ev": "reset", "now": rng.randint(1, 5)}]
+    """transactions over ids t0..; live ones are ended by response / error, or abandoned.  A transaction id is
+    presented AGAIN (a new request with an old id, e.g. the retry of a hung call) once its previous transaction is
+    certainly over whatever the gateway answered: it was ended explicitly (response / proxy error), or it was
+    requested more than max(expiry + GC period) ticks ago."""
+    now = rng.randint(1, 5)
+    h = [{"ev": "reset", "now": now}]
     flows = sorted(cfg["flows"])
+    far_all = max(cfg["Expiry"][q] + cfg["GcPeriod"][q] for q in cfg["quotas"])
     nxt, live, ended = 0, [], []
+    req_at, reusable = {}, []
+
+    def new_id():
+        nonlocal nxt
+        old = [t for t in req_at if t not in live and t not in reusable and now > req_at[t] + far_all]
+        for t in old:
+            reusable.append(t)
+        if reusable and (rng.random() < 0.4 or nxt >= NTXN):
+            t = rng.choice(reusable)
+            reusable.remove(t)
+            if t in ended:
+                ended.remove(t)
+        elif nxt < NTXN:
+            t = "t%d" % nxt
+            nxt += 1
+        else:
+            return None
+        req_at[t] = now
+        return t
+
+    def adv(d):
+        nonlocal now
+        now += d
+        h.append({"ev": "adv", "d": d})
+        # abandoned transactions that are certainly over by now are no longer "live" for the script
+        for t in [t for t in live if now > req_at[t] + far_all]:
+            live.remove(t)
+
+    def end(t, kind):
+        live.remove(t)
+        ended.append(t)
+        if t not in reusable:
+            reusable.append(t)
+        return {"ev": kind, "t": t}
+
     burst = rng.random() < (0.5 if len(cfg["quotas"]) > 1 else 0.3)      # saturate a quota, abandon everything, let it all expire, saturate again
     if burst:
         f = rng.choice(flows)
         q = cfg["flows"][f]["qs"][0]
         k = min(cfg["Max"][x] for x in chain(cfg, q))
+        first = []
         for _ in range(min(k + 1, NTXN // 2)):
-            h.append({"ev": "req", "t": "t%d" % nxt, "flow": f, "early": False})
-            nxt += 1
+            t = new_id()
+            first.append(t)
+            live.append(t)
+            h.append({"ev": "req", "t": t, "flow": f, "early": False})
         far = max(cfg["Expiry"][x] + cfg["GcPeriod"][x] for x in chain(cfg, q)) + rng.choice([0, 1])
         if rng.random() < 0.5:
-            h.append({"ev": "adv", "d": far})
+            adv(far)
         else:
             # stop somewhere between expiry and the last GC pass, end some of the abandoned transactions late, go on
             soon = min(cfg["Expiry"][x] for x in chain(cfg, q)) + 1
             d1 = rng.randint(min(soon, far), far) if rng.random() < 0.7 else rng.randint(1, far)
-            h.append({"ev": "adv", "d": d1})
-            for i in range(nxt):
+            adv(d1)
+            for t in first:
                 if rng.random() < 0.6:
-                    h.append({"ev": rng.choice(["err", "resp"]), "t": "t%d" % i})
+                    if t in live:
+                        h.append(end(t, rng.choice(["err", "resp"])))
+                    else:
+                        h.append({"ev": rng.choice(["err", "resp"]), "t": t})
             if rng.random() < 0.5 and far > d1:
-                h.append({"ev": "adv", "d": far - d1})
-        for _ in range(min(k + 1, NTXN - nxt)):
-            h.append({"ev": "req", "t": "t%d" % nxt, "flow": f, "early": False})
-            live.append("t%d" % nxt)
-            nxt += 1
+                adv(far - d1)
+        for _ in range(k + 1):
+            t = new_id()
+            if t is None:
+                break
+            live.append(t)
+            h.append({"ev": "req", "t": t, "flow": f, "early": False})
     for _ in range(n):
         x = rng.random()
-        if nxt >= NTXN and not live:
-            break
         if x < 0.18:
-            h.append({"ev": "adv", "d": rng.choice([1, 1, 2, 3])})
+            adv(rng.choice([1, 1, 2, 3]))
         elif conc and x < 0.34:
             ops, used = [], set()
             for _ in range(rng.randint(2, 4)):
-                if live and rng.random() < 0.45:
-                    t = rng.choice(live)
-                    if t in used:
-                        continue
+                cand = [t for t in live if t not in used]
+                if cand and rng.random() < 0.45:
+                    t = rng.choice(cand)
                     used.add(t)
-                    live.remove(t)
-                    ended.append(t)
                     ops.append({"op": rng.choice(["resp", "resp", "err"]), "t": t})
-                elif nxt < NTXN:
-                    t = "t%d" % nxt
-                    nxt += 1
+                else:
+                    t = new_id()
+                    if t is None:
+                        continue
                     used.add(t)
                     ops.append({"op": "req", "t": t, "flow": rng.choice(flows), "early": rng.random() < 0.2})
             if len(ops) >= 2:
                 h.append({"ev": "conc", "ops": ops})
-                # requests of a concurrent batch may have been admitted: the script cannot know; treat them as live
-                live += [o["t"] for o in ops if o["op"] == "req" and not o["early"]]
+                for o in ops:
+                    if o["op"] == "req":
+                        live.append(o["t"])          # may have been admitted: the script treats it as live
+                    else:
+                        end(o["t"], o["op"])
             else:
                 for o in ops:
-                    e = dict(o)
-                    e["ev"] = e.pop("op")
-                    h.append(e)
-                    if e["ev"] == "req" and not e.get("early"):
-                        live.append(e["t"])
-        elif x < 0.62 and nxt < NTXN:
-            t = "t%d" % nxt
-            nxt += 1
-            early = rng.random() < 0.2
-            h.append({"ev": "req", "t": t, "flow": rng.choice(flows), "early": early})
-            if not early:
-                live.append(t)
+                    if o["op"] == "req":
+                        live.append(o["t"])
+                        h.append({"ev": "req", "t": o["t"], "flow": o["flow"], "early": o["early"]})
+                    else:
+                        h.append(end(o["t"], o["op"]))
+        elif x < 0.62:
+            t = new_id()
+            if t is None:
+                continue
+            h.append({"ev": "req", "t": t, "flow": rng.choice(flows), "early": rng.random() < 0.2})
+            live.append(t)
         elif live and x < 0.92:
-            t = rng.choice(live)
-            live.remove(t)
-            ended.append(t)
-            h.append({"ev": rng.choice(["resp", "resp", "err"]), "t": t})
+            h.append(end(rng.choice(live), rng.choice(["resp", "resp", "err"])))
         elif ended:
             h.append({"ev": rng.choice(["resp", "err"]), "t": rng.choice(ended)})      # a second end of the same transaction
     return h
 
 
+NSTORM = 24
+
+
+def storm_histories(rng, cfg, rounds, nh):
+    """storms near the limit: NSTORM goroutines present one request each on one flow at the same instant, the admitted
+    ones are then answered (or failed) and the same ids come again, round after round."""
+    flows = sorted(cfg["flows"])
+    hs = []
+    for _ in range(nh):
+        h = [{"ev": "reset", "now": rng.randint(1, 5)}]
+        for _ in range(rounds):
+            h.append({"ev": "storm", "flow": rng.choice(flows), "n": NSTORM, "rel": rng.choice(["resp", "resp", "err", "mixed"])})
+            if rng.random() < 0.15:
+                h.append({"ev": "adv", "d": 1})
+        hs.append(h)
+    return hs
+
+
 def late_end_histories(cfg):
     """systematic family: a transaction is admitted, the clock moves d ticks (every d up to expiry + GC period + 1),
-    the transaction is ended late (response or proxy error), then every flow is filled once more."""
+    the transaction is ended late (response or proxy error), then every flow is filled (the slots stay held), the id
+    of the first transaction is presented again, and everything is answered."""
     out = []
     for f in sorted(cfg["flows"]):
         qs = cfg["flows"][f]["qs"]
@@ -199,16 +287,16 @@ def late_end_histories(cfg):
             for end in ("err", "resp"):
                 h = [{"ev": "reset", "now": 1 + (d % 3)}, {"ev": "req", "t": "t0", "flow": f, "early": False},
                      {"ev": "adv", "d": d}, {"ev": end, "t": "t0"}]
-                n = 1
+                n, ts = 1, []
                 for g in sorted(cfg["flows"]):
                     k = min(cfg["Max"][x] for q in cfg["flows"][g]["qs"] for x in chain(cfg, q))
-                    ts = []
                     for _ in range(min(k, 4)):
                         if n < NTXN:
                             ts.append("t%d" % n)
                             h.append({"ev": "req", "t": "t%d" % n, "flow": g, "early": False})
                             n += 1
-                    h += [{"ev": "resp", "t": t} for t in ts]
+                h.append({"ev": "req", "t": "t0", "flow": f, "early": False})       # the old id again: a new request
+                h += [{"ev": "resp", "t": t} for t in ts + ["t0"]]
                 out.append(h)
     return out
 
@@ -229,15 +317,20 @@ def script_of_history(hist, cfg_flows):
             open_ids.add(e["id"])
             o = {"op": e["op"], "t": e["t"]}
             if e["op"] == "req":
-                o["flow"], o["early"] = flow_of(e["qs"]), e["early"]
+                o["flow"], o["early"] = e.get("flow") or flow_of(e["qs"]), e["early"]
             conc["ops"].append(o)
         elif e["ev"] == "end":
             open_ids.discard(e["id"])
             continue
+        elif e["ev"] == "storm":
+            conc = None
+            out.append({"ev": "storm", "flow": e["flow"], "n": len(e["ts"]), "rel": e.get("rel", "resp")})
+        elif e["ev"] in ("resp", "err") and e["t"].startswith("s"):
+            continue                 # issued by the harness itself after a storm
         else:
             conc = None
             if e["ev"] == "req":
-                out.append({"ev": "req", "t": e["t"], "flow": flow_of(e["qs"]), "early": e["early"]})
+                out.append({"ev": "req", "t": e["t"], "flow": e.get("flow") or flow_of(e["qs"]), "early": e["early"]})
             else:
                 out.append({k: v for k, v in e.items() if k not in ("out", "error")})
     return out
@@ -260,7 +353,7 @@ def witness_of(rej):
     e = h[at]
     ends = sorted({x["ev"] if x["ev"] != "begin" else x["op"] for x in h[:at] if x["ev"] in ("resp", "err") or (x["ev"] == "begin" and x["op"] in ("resp", "err"))})
     return {"class": "verdict-not-allowed-by-spec" if not rej.get("invariant") else "bound-exceeded",
-            "event": e, "concurrent": e["ev"] in ("begin", "end") or any(x["ev"] == "begin" for x in h[:at]),
+            "event": e, "concurrent": e["ev"] in ("begin", "end", "storm") or any(x["ev"] == "storm" for x in h[:at]) or any(x["ev"] == "begin" for x in h[:at]),
             "nquotas": len(e.get("qs", [])), "after_advance": any(x["ev"] == "adv" for x in h[:at]),
             "ends_before": ends, "invariant": rej.get("invariant")}
 
@@ -297,6 +390,9 @@ def drift_check(ctx, tag, n):
     ctx.log(ctx.notes[-1])
 
 
+UNREPRODUCED = []
+
+
 def judge(ctx, binary, scripts, traces, tag, seen_hist):
     def one(it):
         i, ev = it
@@ -306,7 +402,7 @@ def judge(ctx, binary, scripts, traces, tag, seen_hist):
         cfg, hs = split_histories(ev)
         ctx.cov["traces_validated_against_impl"] += acc
         for h in hs:
-            ctx.cov["evaluations"] += sum(1 for e in h if e["ev"] in ("req", "resp", "err", "begin"))
+            ctx.cov["evaluations"] += sum(1 for e in h if e["ev"] in ("req", "resp", "err", "begin")) + sum(len(e["ts"]) for e in h if e["ev"] == "storm")
             key = json.dumps([cfg, h], sort_keys=True)
             if key not in seen_hist:
                 seen_hist.add(key)
@@ -324,16 +420,19 @@ def judge(ctx, binary, scripts, traces, tag, seen_hist):
                     reproduced = True
                     break
             if not reproduced:
-                raise Broken("rejection not reproduced (%s): %s" % (tag, json.dumps(w)))
+                # never reported as a violation; the run is broken unless other rejections were reproduced
+                ctx.notes.append("rejection not reproduced in %d attempts (%s): %s" % (20 if w["concurrent"] else 1, tag, json.dumps(w)))
+                UNREPRODUCED.append(w)
+                continue
             ctx.violation(w, {"script": [script], "trace": [rej["config"]] + rej["hist"], "rejected_at": rej["at"]})
 
 
 GEN_CONFIG = {"quotas": ["qa", "qb", "cc"], "parent": {"qa": "-", "qb": "-", "cc": "qa"},
               "Max": {"qa": 3, "qb": 1, "cc": 2}, "Expiry": {"qa": 2, "qb": 3, "cc": 2}, "GcPeriod": {"qa": 2, "qb": 1, "cc": 2},
-              "txns": ["t%d" % i for i in range(10)],
+              "txns": ["t%d" % i for i in range(6)],
               "flows": {"f": {"qs": ["cc"]}, "g": {"qs": ["qa", "qb"]}, "h": {"qs": ["qb"]}}}
 
-VARIANTS = [("gc_keeps", 1), ("ge_to_gt", 1), ("dec_wrong", 1), ("no_release", 1), ("no_unregister", 1)]   # (variant, Max): each must be refuted
+VARIANTS = [("gc_wrong_key", 1), ("gc_keeps", 1), ("ge_to_gt", 1), ("dec_wrong", 1), ("no_release", 1), ("no_unregister", 1)]   # (variant, Max): each must be refuted
 
 
 def variant_cfg(sd, base, variant, mx=None, txns=None):
@@ -350,8 +449,10 @@ def run(ctx):
     T = ctx.thorough
     binary = ctx.build_harness("c02")
     sd = ctx.spec_dir(SPEC)
-    ctx.cov["rule"] = ("histories = seeded random transaction scripts over three configuration shapes (one quota; parent + internal limit "
-                       "with a flow on each; two independent quotas consulted by one flow) with requests (some answered early by a later "
+    ctx.cov["rule"] = ("histories = seeded random transaction scripts over six configuration shapes (one quota; parent + internal limit "
+                       "with a flow on each; two independent quotas consulted by one flow; concurrency parent with a fixed-window internal "
+                       "limit named by the Limiter; fixed-window parent with a concurrency internal limit; concurrency / fixed-window / "
+                       "concurrency chain) with requests - also re-presenting the id of a transaction that is over - (some answered early by a later "
                        "processor), responses, proxy errors, repeated ends, abandoned transactions, clock advances past expiry and GC "
                        "period, concurrent batches of requests / responses / errors + TLC -simulate walks of ConcurrencyP; a history is "
                        "non-trivial when a request is refused (quota exhausted) and a later request is admitted (a slot was given back); "
@@ -361,17 +462,19 @@ def run(ctx):
                                "harness/cmd/c02 projection (no early-return action = admit, 429 = refuse, 200 = answered early)",
                                "hook cq.gc.done as the completion signal of a background GC pass"]
     ctx.assumptions += ["1 tick = 1 s; the clock moves tick by tick and no operation overlaps a background GC pass (the pass due at a tick completes before the next event)",
-                        "transaction ids are unique; the end events of a transaction (response, proxy error) come after its request was answered",
+                        "a transaction id is presented again (a new request) only after its previous transaction is over: ended by response / proxy error / early or refusing answer, or requested more than expiry + GC period ago; ids in flight are distinct; the end events of a transaction come after its request was answered",
+                        "implementation-shaped model: a re-presented id does not race a GC pass, and the two critical sections of a request's Inc take less than a tick",
+                        "mixed hierarchies: the fixed-window members are configured never to refuse (max 10^6 per hour), the specification sees the concurrency quotas only",
                         "the implementation-shaped model covers one quota (no hierarchy); hierarchies and multi-quota flows are covered by the recorded traces judged by ConcurrencyP",
                         "single gateway instance (no cluster liveness), in-memory shared state"]
 
-    n = 90 if not T else 300
-    jobs = [("ex", "MC_C02", "MC_small.cfg", "2 transactions, Max 1, expiry + GC: Bounded, NoLeak, Quiescent, ExpiryBound, OnceOnly"),
-            ("ex", "MC_C02", "MC_mid.cfg", "3 transactions, Max 2, requests || releases")]
+    n = 60 if not T else 300
+    jobs = [("ex", "MC_C02", "MC_small.cfg", "2 transactions, Max 1, one re-presented id, expiry + GC: Bounded, NoLeak, Quiescent, ExpiryBound, OnceOnly, HeldHasSlot")]
     if T:
+        jobs.append(("ex", "MC_C02", "MC_mid.cfg", "3 transactions, Max 2, requests || releases"))
         jobs.append(("ex", "MC_C02", "MC_large.cfg", "3 transactions, Max 2, expiry + GC"))
         jobs.append(("nv", "MC_C02", variant_cfg(sd, "MC_large.cfg", "alias_gc", 3), "alias_gc"))
-    jobs += [("nv", "MC_C02", variant_cfg(sd, "MC_small.cfg", v, mx), v) for v, mx in (VARIANTS if T else VARIANTS[:3])]
+    jobs += [("nv", "MC_C02", variant_cfg(sd, "MC_small.cfg", v, mx), v) for v, mx in (VARIANTS if T else VARIANTS[:4])]
     jobs.append(("gen", "GenC02", "GenC02.cfg", "behaviour generation"))
 
     def tl(job):
@@ -387,13 +490,14 @@ def run(ctx):
 
     seen = set()
     # (3) code -> spec, while TLC works: random scripts incl. concurrency, recorded and validated
-    ncfg, nh, hl = (9, 24, 30) if not T else (24, 80, 40)
+    ncfg, nh, hl = (9, 18, 30) if not T else (24, 80, 40)
     scripts = []
     for c in range(ncfg):
         cfg = rand_config(ctx.rng, T, shape=SHAPES[c % len(SHAPES)])
         hs = [rand_history(ctx.rng, cfg, hl, conc=(i % 2 == 1)) for i in range(nh)]
         if c < len(SHAPES) or T:
             hs += late_end_histories(cfg)
+        hs += storm_histories(ctx.rng, cfg, 12 if not T else 25, 2 if not T else 6)
         scripts.append(script_of(cfg, hs, hooks=True))
     rtraces = execute(ctx, binary, scripts, "rand")
     ctx.sample({"kind": "recorded-trace", "events": rtraces[0][:14]})
@@ -438,6 +542,8 @@ def run(ctx):
     ctx.sample({"kind": "tlc-behaviour", "config": {k: GEN_CONFIG[k] for k in ("Max", "Expiry", "GcPeriod", "parent")}, "events": behaviours[0][:12]})
     judge(ctx, binary, gscripts, traces, "gen", seen)
 
+    if UNREPRODUCED and not ctx.violations:
+        raise Broken("rejection(s) not reproduced: %s" % json.dumps(UNREPRODUCED[0]))
     if ctx.cov["distinct_nontrivial"] < 20 and not ctx.violations:
         raise Broken("only %d non-trivial histories" % ctx.cov["distinct_nontrivial"])
 
